@@ -78,6 +78,9 @@ def run(fx, rep):
 
     for s in sites:
         p = s['paths'][0] if len(s['paths']) == 1 else '|'.join(s['paths'])
+        if '?' in p or len(s['paths']) != 1:
+            rep.violation('R2', 'unrecognised-site/%s' % arm_name(m, s['block']), s['loc'],
+                          'cannot tell which sub-expression is evaluated here (%s): evaluation order cannot be established (fail closed)' % sorted(F.term_str(x) for x in s['terms']))
         after = reach_after(b, s['block'])
         # cycle: the same site again without advancing an iterator
         if s['block'] in after:
@@ -105,7 +108,10 @@ def run(fx, rep):
                 direct = b.reachable_from(b.succ(s['block']), blocked=nxt)
                 rep.check(o['block'] not in direct, 'R2', key, o['loc'], 'next entry only', 'map value evaluated before its key')
             elif p.endswith('MapEntry.key') and q.endswith('MapEntry.value'):
-                rep.check(b.dominates(s['block'], o['block']), 'R2', key, o['loc'], 'key evaluated before value', 'value may be evaluated without/before its key')
+                same_iter = o['block'] in b.reachable_from(b.succ(s['block']), blocked=nxt)
+                rep.check(b.dominates(s['block'], o['block']) and same_iter, 'R2', key, o['loc'], 'key, then the value of the same entry, before the next entry',
+                          'the value of a map entry is not evaluated right after its key (before advancing to the next entry): entries are evaluated out of source order (k1, k2, .., v1, v2, ..)'
+                          if not same_iter else 'value may be evaluated without/before its key')
     # comprehension: cond before step inside one iteration
     cond = [s for s in sites if s['paths'] == ['Comprehension.loop_cond']]
     step = [s for s in sites if s['paths'] == ['Comprehension.loop_step']]
